@@ -51,6 +51,9 @@ func runC02(ctx *Ctx, idx int) Result {
 	if idx%7 == 3 {
 		cfg.CB = driver.CBSwap // a BeforeItemWrite/AfterItemRead pair that writes a substitute item
 	}
+	if idx%7 == 6 {
+		cfg.CB = driver.CBReplaceOther // SetCollection on another existing name in the middle of every Flush
+	}
 	if idx%7 == 5 {
 		cfg.CB = driver.CBTouchOther // another collection gets a new, content-identical version in the middle of every Flush
 	}
